@@ -1265,7 +1265,12 @@ def tensor_method(ex, t, name, args, kwargs):
     if name == 'cuda':
         raise OutOfSubset('cuda')
     if name == 'contiguous':
-        return t
+        if t.contiguous:
+            return t
+        c = T.clone(t)           # a strided tensor is copied (when the model cannot tell, aliasing is unknown)
+        c.contiguous = True
+        c.maybe_view_of = t
+        return c
     if name == 'to':
         dtype = kwargs.get('dtype')
         for a in args:
@@ -1309,6 +1314,8 @@ def tensor_method(ex, t, name, args, kwargs):
         return T.unary_fn(t, 'abs')
     if name in ('reshape', 'view'):
         shape = args[0] if len(args) == 1 and isinstance(args[0], (list, tuple)) else args
+        if name == 'view' and not t.contiguous:
+            raise OutOfSubset('view() of a possibly non-contiguous tensor (raises when the strides are incompatible)')
         return T.reshape(t, [int_expr(s) for s in shape])
     if name == 'squeeze':
         return T.squeeze(t, *args, **kwargs)
@@ -1424,6 +1431,8 @@ def _creation(fill):
         k = dict(k)
         k.pop('device', None)
         dtype = _dtype_kw(k)
+        if not a and 'size' not in k:
+            raise PyRaise('TypeError', 'missing 1 required positional argument: size', origin='torch')
         shape = T._shape_arg(a)
         shape = _ints(shape)
         for s in shape:
@@ -1474,6 +1483,8 @@ def _tensor(ex, a, k):
 @ext('torch.arange')
 def _arange(ex, a, k):
     dtype = _dtype_kw(k)
+    if dtype in T.COMPLEX:
+        raise PyRaise('NotImplementedError', '"arange_cpu" not implemented for complex dtypes', origin='torch')
     if len(a) == 1:
         n = int_expr(a[0])
         if is_intlike(a[0]):
@@ -1524,9 +1535,14 @@ def _conj(ex, a, k):
     return T.conj(a[0])
 
 
-@ext('torch.einsum', 'opt_einsum.contract')
+@ext('torch.einsum')
 def _einsum(ex, a, k):
     return T.einsum(a[0], *a[1:])
+
+
+@ext('opt_einsum.contract')
+def _oe_contract(ex, a, k):
+    return T.einsum(a[0], *a[1:], validated_by_opt_einsum=True)
 
 
 @ext('torch.tensordot')
